@@ -125,6 +125,9 @@ func checkC17(c *Ctx) {
 				for _, base := range []string{sentinel, work, os.TempDir()} {
 					d := filepath.Join(base, "age-plugin-"+n[:i])
 					os.MkdirAll(d, 0o755)
+					if base == os.TempDir() {
+						defer os.RemoveAll(d) // the decoy in the system temp directory does not outlive the check
+					}
 					os.Symlink(stub, filepath.Join(d, strings.Trim(n[i+1:], "/")+"x"))
 					if rest := strings.Trim(n[i+1:], "/"); rest != "" {
 						os.Symlink(stub, filepath.Join(d, rest))
